@@ -241,6 +241,14 @@ def run_cell(cell, rec, seed):
                 if v is not None:
                     rec.close("truncated variance", np.asarray(v).reshape(R), var_ref,
                               ns=var_scale, detail=d, mech=f"normalised-variance:{name}")
+                # the standard deviation read-out: judged where the variance is resolved (a
+                # variance at rounding level of its own cancellation may come out negative)
+                if np.all(1e-6 * np.asarray(var_scale) < np.asarray(var_ref)):
+                    sd = lc.call(rec, "get_std", lambda: P.get_std(), d)
+                    if sd is not None:
+                        rec.close("truncated std", np.asarray(sd).reshape(R), np.sqrt(var_ref),
+                                  ns=np.asarray(var_scale) / (2.0 * np.sqrt(var_ref)), detail=d,
+                                  mech=f"normalised-std:{name}")
         if rep == 0:
             rec.sample({"case": info, "mpmath_integrals_k0..6": ref})
 
